@@ -31,10 +31,6 @@ class Wrapc(util.WrapperMixin):
     """Generate C bindings and Fortran helpers for C++ library.
 
     """
-    capsule_code = {}
-    capsule_order = []
-    capsule_include = {}  # includes needed by C_memory_dtor_function
-
     def __init__(self, newlibrary, config, splicers):
         """
         Args:
@@ -42,6 +38,11 @@ class Wrapc(util.WrapperMixin):
             config -
             splicers -
         """
+        # Destructor table of this library (per instance, not shared
+        # between libraries processed in the same process).
+        self.capsule_code = {}
+        self.capsule_order = []
+        self.capsule_include = {}  # includes needed by C_memory_dtor_function
         self.newlibrary = newlibrary
         self.patterns = newlibrary.patterns
         self.language = newlibrary.language
